@@ -414,6 +414,75 @@ func crCases(c *core.Ctx) ([]json.RawMessage, error) {
 		}
 		c.Set("pumped_cases", np+len(runs)*24)
 	}
+	// ---- K. the projects of the semantic specifications: whatever a model of another property can build is an input
+	// here too (inheritance with nested heirs and choice roots, the rule families with the whole vocabulary, scaled texts)
+	{
+		nk := 0
+		mkAllOf := func(name, nest, choice string) error {
+			body := fmt.Sprintf("SPECIFICATION Spec\nCONSTANTS\n  N = 2\n  KeySet = {\"k1\", \"k2\"}\n  MaxList = 1\n  APs = {\"absent\", \"false\"}\n  Nest = %s\n  RootChoice = %s\nINVARIANTS Emit\nCHECK_DEADLOCK FALSE\n", nest, choice)
+			var lines []string
+			res, err := tlc.Run(tlc.Opts{Module: "AllOf", Cfg: name, Workers: 8, Files: map[string][]byte{name: []byte(body)}, OnLine: func(l string) { lines = append(lines, l) }})
+			res.Cleanup()
+			if err != nil {
+				return err
+			}
+			if err := res.MustOK(); err != nil {
+				return err
+			}
+			c.AddTLC(name, res)
+			sort.Strings(lines)
+			kv := map[string]string{"k1": "1", "k2": `"two"`, "k3": "true"}
+			stride := c.Pick(29, 5)
+			for i, l := range lines {
+				if (i+int(c.Seed))%stride != 0 {
+					continue
+				}
+				var cs aoCase
+				if json.Unmarshal([]byte(l), &cs) != nil {
+					continue
+				}
+				types := map[string]string{}
+				for _, t := range cs.Types {
+					if t.D.Kind != "withheld" {
+						types["@"+t.Name] = aoText(t.D, kv)
+					}
+				}
+				crAdd(&out, seen, crCase{Entry: "project", Text: []byte(aoText(cs.Root, kv)), Types: types, Src: "AllOf"})
+				nk++
+			}
+			return nil
+		}
+		if err := mkAllOf("AllOf_crash_nest.cfg", "TRUE", "FALSE"); err != nil {
+			return nil, err
+		}
+		if err := mkAllOf("AllOf_crash_choice.cfg", "FALSE", "TRUE"); err != nil {
+			return nil, err
+		}
+		extra, res, err := smExtraCases(c)
+		if err != nil {
+			return nil, err
+		}
+		c.AddTLC("SchemaModelExtra.cfg", res)
+		famSize := map[string]int{}
+		for _, cs := range extra {
+			famSize[cs.Skel]++
+		}
+		for i, cs := range extra {
+			if famSize[cs.Skel] > 300 && (i+int(c.Seed))%c.Pick(37, 5) != 0 {
+				continue
+			}
+			if len(cs.Extra["root"]) > 20000 && !c.Thorough() {
+				continue
+			}
+			types := map[string]string{}
+			if cs.Extra["type"] != "" {
+				types["@t"] = cs.Extra["type"]
+			}
+			crAdd(&out, seen, crCase{Entry: "project", Text: []byte(cs.Extra["root"]), Types: types, Src: "SchemaModelExtra"})
+			nk++
+		}
+		c.Set("model_projects", nk)
+	}
 	// ---- J. deep indentation: the printed projects (cut and mutated: most of them are rejected somewhere) with
 	// every line indented by 60, 120 or 190 blanks, so that lines are longer than the 200 bytes a diagnostic quotes
 	// while their visible part is short
